@@ -89,6 +89,7 @@ class Msg(object):
         self.wire_body = 0            # bytes occupied by the body on the wire
         self.close_delimited = False
         self.partial_body_len = 0
+        self.trailer_wire = 0         # bytes of the trailer section on the wire (incl. its terminating blank line)
         self.phase = 'start-line'      # where parsing stood when the stream ended (status 'incomplete')
         self.announced_end = None     # hdr_end + Content-Length when that is known (even if the body is incomplete)
 
@@ -335,6 +336,7 @@ def _parse_chunked(m, buf, pos, is_request):
     m.phase = 'trailers'
     sub = Msg(m.kind, pos)
     trailers, pos, _c, _w = _parse_fields(sub, buf, pos, is_request, first_section=False)
+    m.trailer_wire = _w
     for r in sub.reject:
         _add(m.reject, r)
     for r in sub.either:
